@@ -155,6 +155,29 @@ func genPlan(r *rand.Rand) *plan {
 		}
 		return pl
 	}
+	if r.Intn(4) == 0 { // the first shapes have no edges at all (a build over them produces no cells)
+		for k := 0; k < 1+r.Intn(2); k++ {
+			var sh s2.Shape
+			kind := ""
+			switch r.Intn(6) {
+			case 0:
+				sh, kind = s2.EmptyLoop(), "EmptyLoop"
+			case 1:
+				sh, kind = s2.FullLoop(), "FullLoop"
+			case 2:
+				pl0 := s2.Polyline{}
+				sh, kind = &pl0, "EmptyPolyline"
+			case 3:
+				sh, kind = s2.PolygonFromLoops(nil), "EmptyPolygon"
+			case 4:
+				sh, kind = s2.FullPolygon(), "FullPolygon"
+			default:
+				pv := s2.PointVector{}
+				sh, kind = &pv, "EmptyPointVector"
+			}
+			pl.pool = append(pl.pool, &gen.Obj{Shape: sh, Kind: kind})
+		}
+	}
 	np := 2 + r.Intn(4)
 	for i := 0; i < np; i++ {
 		pl.pool = append(pl.pool, gen.MakeObj(r, gen.Near(r, pl.center, pl.scale*r.Float64()), pl.scale*(0.2+0.8*r.Float64()), 60))
@@ -181,6 +204,8 @@ func genPlan(r *rand.Rand) *plan {
 			nextAdd++
 		case k < 5:
 			o = op{kind: "build"}
+		case k == 5 && r.Intn(2) == 0:
+			o = op{kind: "remove", arg: r.Intn(1 << 20)}
 		case k == 5 && r.Intn(3) == 0:
 			o = op{kind: "reset"}
 			// after a reset the same pool shapes may be added again from the start
@@ -232,10 +257,12 @@ func (pl *plan) newEQ(idx *s2.ShapeIndex, far bool, reference bool) *s2.EdgeQuer
 	return s2.NewClosestEdgeQuery(idx, o)
 }
 
-func resStr(rs []s2.EdgeQueryResult) string {
+// resStr renders results with the shape named by its position in the plan's pool (shape ids differ between
+// an index that had shapes removed and a fresh index holding the same shapes).
+func resStr(rs []s2.EdgeQueryResult, name func(int32) int) string {
 	var sb strings.Builder
 	for _, r := range rs {
-		fmt.Fprintf(&sb, "(%x,%d,%d)", float64(r.Distance()), r.ShapeID(), r.EdgeID())
+		fmt.Fprintf(&sb, "(%x,%d,%d)", float64(r.Distance()), name(r.ShapeID()), r.EdgeID())
 	}
 	return sb.String()
 }
@@ -247,7 +274,7 @@ type tcache struct {
 	max *s2.MaxDistanceToShapeIndexTarget
 }
 
-func edgeQuery(q *s2.EdgeQuery, o op, what string, tgt []s2.Point, tc *tcache) string {
+func edgeQuery(q *s2.EdgeQuery, o op, what string, tgt []s2.Point, tc *tcache, name func(int32) int) string {
 	e := s2.Edge{V0: o.p, V1: o.q}
 	var tidx *s2.ShapeIndex
 	if o.tk == 3 {
@@ -260,7 +287,7 @@ func edgeQuery(q *s2.EdgeQuery, o op, what string, tgt []s2.Point, tc *tcache) s
 	call := func(find func() []s2.EdgeQueryResult, dist func() s1.ChordAngle, less func() bool, cons func() bool) string {
 		switch what {
 		case "find":
-			return resStr(find())
+			return resStr(find(), name)
 		case "dist":
 			return fmt.Sprintf("%x", float64(dist()))
 		case "less":
@@ -359,14 +386,43 @@ func oneHistory(c *mon.Case) {
 			map[string]any{"history": append(append([]string{}, done...), o.kind), "full_plan": pl.word(), "shapes": pl.kinds(), "got": trunc(got), "want": trunc(want),
 				"edge_query_options": map[string]any{"max_results": pl.maxResults, "limit": fmt.Sprintf("%x", float64(pl.limit)), "interiors": pl.interiors, "brute": pl.brute}})
 	}
+	nameIn := func(ix *s2.ShapeIndex) func(int32) int {
+		return func(id int32) int {
+			sh := ix.Shape(id)
+			for k, o := range pl.pool {
+				if o.Shape == sh {
+					return k
+				}
+			}
+			return -1
+		}
+	}
+	// Query objects survive a modification of the index only if the index has been built again before they
+	// are used (an EdgeQuery additionally gets Reset(), as its documentation of cached state implies);
+	// used on a stale index they are created anew, like the reference objects.
+	gen0, cpqGen, ceqGen := 0, 0, 0
+	eqGen := map[bool]int{}
+	modified := func() {
+		gen0++
+		thresholdBeforeFind = map[bool]bool{}
+		addedSinceBuild = true
+	}
 	for _, o := range pl.ops {
 		switch o.kind {
 		case "add":
 			idx.Add(pl.pool[o.arg].Shape)
 			cur = append(cur, o.arg)
-			cpq, ceq, eqs = nil, nil, map[bool]*s2.EdgeQuery{}
-			thresholdBeforeFind = map[bool]bool{}
-			addedSinceBuild = true
+			modified()
+		case "remove":
+			if len(cur) == 0 {
+				continue
+			}
+			k := o.arg % len(cur)
+			idx.Remove(pl.pool[cur[k]].Shape)
+			cur = append(cur[:k:k], cur[k+1:]...)
+			modified()
+			c.Count("ops.remove", 1)
+			nontrivial = true
 		case "build":
 			if built && addedSinceBuild {
 				c.Count("ops.second_build_after_add", 1)
@@ -378,15 +434,25 @@ func oneHistory(c *mon.Case) {
 			idx.Reset()
 			cur = nil
 			cpq, ceq, eqs = nil, nil, map[bool]*s2.EdgeQuery{}
+			targets = &tcache{}
 			thresholdBeforeFind = map[bool]bool{}
 			c.Count("ops.reset", 1)
 			nontrivial = true
 			built = false
 		case "cpq":
+			if cpq != nil && cpqGen != gen0 {
+				if !idx.IsFresh() {
+					cpq = nil
+				} else {
+					c.Count("ops.query_reused_after_modification_and_build", 1)
+					nontrivial = true
+				}
+			}
 			if cpq == nil {
 				cpq = s2.NewContainsPointQuery(idx, s2.VertexModelSemiOpen)
 				built, addedSinceBuild = true, false
 			}
+			cpqGen = gen0
 			f, shapes := fresh()
 			fq := s2.NewContainsPointQuery(f, s2.VertexModelSemiOpen)
 			got := fmt.Sprint(cpq.Contains(o.p), len(cpq.ContainingShapes(o.p)))
@@ -400,10 +466,19 @@ func oneHistory(c *mon.Case) {
 			if o.p == o.q {
 				continue
 			}
+			if ceq != nil && ceqGen != gen0 {
+				if !idx.IsFresh() {
+					ceq = nil
+				} else {
+					c.Count("ops.query_reused_after_modification_and_build", 1)
+					nontrivial = true
+				}
+			}
 			if ceq == nil {
 				ceq = s2.NewCrossingEdgeQuery(idx)
 				built, addedSinceBuild = true, false
 			}
+			ceqGen = gen0
 			f, shapes := fresh()
 			fq := s2.NewCrossingEdgeQuery(f)
 			got := crossStr(ceq.CrossingsEdgeMap(o.p, o.q, s2.CrossingTypeAll), shapes)
@@ -417,15 +492,25 @@ func oneHistory(c *mon.Case) {
 				continue
 			}
 			q := eqs[o.far]
+			if q != nil && eqGen[o.far] != gen0 {
+				if !idx.IsFresh() || c.R.Intn(2) == 0 {
+					q = nil
+				} else {
+					q.Reset()
+					c.Count("ops.edgequery_reset_after_modification", 1)
+					nontrivial = true
+				}
+			}
 			if q == nil {
 				q = pl.newEQ(idx, o.far, false)
 				eqs[o.far] = q
 			}
+			eqGen[o.far] = gen0
 			built, addedSinceBuild = true, false
 			f, _ := fresh()
 			fq := pl.newEQ(f, o.far, true)
-			got := edgeQuery(q, o, o.kind, pl.tgt, targets)
-			want := edgeQuery(fq, o, o.kind, pl.tgt, nil)
+			got := edgeQuery(q, o, o.kind, pl.tgt, targets, nameIn(idx))
+			want := edgeQuery(fq, o, o.kind, pl.tgt, nil, nameIn(f))
 			if o.tk == 3 {
 				c.Count("ops.index_target", 1)
 			}
